@@ -365,6 +365,31 @@ def run(tier, seed, replay=None):
             res.failing.append(("cli-dies-%s-%s" % (args[0], args[1]), "the tool died (signal / timeout) while converting a valid file", case))
         elif rc == 0 and size <= 0:
             res.failing.append(("convert-exit0-without-output-%s-%s" % (args[0], args[1]), "%s %s exits 0 but %s" % (args[0], args[1], "wrote no output file" if size < 0 else "wrote an empty output file"), case))
+    # m2 validate: the exit status must follow the library's verdict and must not depend on --warnings
+    vfiles = [(os.path.join(base, f), open(os.path.join(base, f), "rb").read()) for f in sorted(os.listdir(base)) if f.startswith("e_m2_") and f.endswith(".m2")]
+    hollow = C.run_lines([C.bin_path("impl_m2")], ["model 2 1 0 0 0 0 0 0 0 0 0 0 0", "model 0 2 0 1 1 0 0 0 0 0 0 0 0"], shards=1)
+    for k, o in enumerate(hollow):
+        hx = next((t[3:] for t in o.split(" ") if t.startswith("W1=")), "")
+        try:
+            raw = bytes.fromhex(hx)
+        except ValueError:
+            raw = b""
+        if raw:
+            pth = os.path.join(base, "e_hollow_%d.m2" % k)
+            with open(pth, "wb") as f:
+                f.write(raw)
+            vfiles.append((pth, raw))
+    verdicts = C.run_lines([C.bin_path("impl_m2")], ["mvalidate " + raw.hex() for _, raw in vfiles], shards=1) if vfiles else []
+    for (pth, raw), lib in zip(vfiles, verdicts):
+        rcs = [runcli(cli, ["m2", "validate", pth] + fl)[0] for fl in ([], ["--warnings"])]
+        res.case("m2 validate " + os.path.basename(pth), nontrivial=True)
+        case = {"command": "m2 validate <%s> [--warnings]" % os.path.basename(pth), "library_verdict": lib, "exit_plain": rcs[0], "exit_with_warnings_flag": rcs[1]}
+        if any(rc < 0 or rc > 128 for rc in rcs):
+            res.failing.append(("cli-dies-m2-validate", "m2 validate died on a generated model", case))
+        elif (rcs[0] == 0) != (rcs[1] == 0):
+            res.failing.append(("m2-validate-exit-depends-on-flag", "m2 validate exits %d without and %d with --warnings on the same file" % tuple(rcs), case))
+        elif lib in ("INVALID", "PARSE-ERR") and rcs[0] == 0:
+            res.failing.append(("m2-validate-exit-untruthful", "m2 validate exits 0 on a model that the library's validation rejects (%s)" % lib, case))
     # mpq create with two inputs that get the same archive name (other directory, other case): exit 0 only if both come back
     dupd = os.path.join(base, "dup")
     for sub_, nm_, dta in (("a", "readme.txt", b"first"), ("b", "README.TXT", b"second one"), ("c", "tile.dat", b"x" * 300), ("d", "tile.dat", b"y" * 300)):
